@@ -44,7 +44,7 @@ def gen_base(rng, small=False):
     return {"B": B, "s": s, "cols": cols, "heuristic": rng.choice(["MI-numba-randomized", "max-value-coverage", "MI-numba"]),
             "target_only": rng.choice(["True", "False", "False"]), "seed": rng.randint(0, 10 ** 6), "segments": c08.rle(lines),
             "entry": "task", "interaction_order": io, "cap": cap, "noise": rng.choice(["False", "False", "True"]),
-            "trailing_newline": True, "crlf": False,
+            "trailing_newline": True, "crlf": False, "disable_tqdm": rng.choice(["True", "True", "False"]),
             "extra_args": rng.choice([[], [], ["--mi_stratified_sampling_ratio", rng.choice(["0.5", "0.8", "0.3"])]])}
 
 
@@ -214,7 +214,7 @@ def check(run, replay):
             hist["batches"][str(nb)] = hist["batches"].get(str(nb), 0) + 1
             ntasks = max([len(b.get("triplets") or []) // 2 for b in r.get("batches", [])] or [0])
             hist["tasks_per_batch_max"] = max(hist["tasks_per_batch_max"], ntasks)
-            canon = {kk: c.get(kk) for kk in ("B", "s", "cols", "segments", "heuristic", "target_only", "interaction_order", "cap", "noise", "extra_args", "pool")}
+            canon = {kk: c.get(kk) for kk in ("B", "s", "cols", "segments", "heuristic", "target_only", "interaction_order", "cap", "noise", "extra_args", "disable_tqdm", "pool")}
             run.count_case(canon, nb >= 2 and ntasks >= 6)
             rcase = {"kind": "pool", "base": {kk: vv for kk, vv in c.items() if kk != "pool"}, "pool": spec}
             if not r.get("ok"):
